@@ -4,20 +4,31 @@
 (* is consistent with the stored association instances.                    *)
 (*                                                                         *)
 (* Schema (abstract tokens; lexical case is folded by the binding):        *)
-(*   node classes         N, NS : N, M                                     *)
+(*   node classes         N, NS : N, NSS : NS, M                           *)
 (*   association classes  AB  {[key] N REF r1, [key] M REF r2}             *)
-(*                        ABS : AB                                         *)
+(*                        ABS : AB, ABSS : ABS   (hierarchies three levels *)
+(*                        deep: "class filters include subclasses" means   *)
+(*                        the transitive closure, checked by an ASSUME)    *)
 (*                        AT  {[key] N REF a, [key] N REF b, [key] M REF c}*)
 (*                        AL  {[key] id, N REF r1, M REF r2}  (ends may be *)
 (*                             NULL = end 0; only AL has optional ends)    *)
 (*                                                                         *)
 (* A graph G = [nodes, assocs]:                                            *)
-(*   nodes[i]  = [ns, cls, sv]      stored node instance i (sv = token of  *)
-(*                                  the stored value of property s)       *)
-(*   assocs[j] = [cls, ends, ns, g] one STORED copy of an association      *)
-(*               instance: ends[p] = node index or 0, ns = namespace whose *)
-(*               instance store holds the copy, g = identity of the        *)
-(*               instance modulo namespace (class + keybindings).          *)
+(*   nodes[i]  = [ns, cls, sv, kid] stored node instance i (sv = token of  *)
+(*               the stored value of property s, kid = token of its key    *)
+(*               values: two nodes in DIFFERENT namespaces may have the    *)
+(*               same class and key values ("twins"); they are different   *)
+(*               objects, an association referencing one says nothing      *)
+(*               about the other)                                          *)
+(*   assocs[j] = [cls, ends, ns, g, w, pns] one STORED copy of an          *)
+(*               association instance: ends[p] = node index or 0, ns =     *)
+(*               namespace whose instance store holds the copy, g =        *)
+(*               identity of the instance modulo namespace (class +        *)
+(*               keybindings), w = token of the stored value of the        *)
+(*               non-reference property `note` (0 = not set; set by        *)
+(*               ModifyInstance), pns = namespace stated by the stored     *)
+(*               object's own path (not used by the requirement; the       *)
+(*               code-shaped machine looks paths up by it).                *)
 (*                                                                         *)
 (* Event style (TraceKit): Fails(s, e) = names of the statement's clauses  *)
 (* that the recorded responses of event e violate, Apply(s, e) = next      *)
@@ -39,7 +50,8 @@
 (*        "skip" (not called) ; ids sorted node indexes (associators) or   *)
 (*        assocs indexes (references), 0 = not a stored object's path;     *)
 (*        vs (full operations): per object the value tokens that came back *)
-(*        (<<sv>> for nodes, the ends for association instances)           *)
+(*        (<<sv>> for nodes, the ends followed by the `note` token for     *)
+(*        association instances)                                           *)
 (*   [op "cls", c, aq, rq]   class-level: o[1] Names, o[2] full;           *)
 (*        response = [k, cs] with cs the sorted class tokens               *)
 (***************************************************************************)
@@ -49,18 +61,29 @@ Rng(q) == {q[i] : i \in DOMAIN q}
 Mod(a, b) == a - b * (a \div b)
 
 (*------------------------------ schema ----------------------------------*)
-NodeClasses == {"N", "NS", "M"}
-AssocClasses == {"AB", "ABS", "AT", "AL"}
+NodeClasses == {"N", "NS", "NSS", "M"}
+AssocClasses == {"AB", "ABS", "ABSS", "AT", "AL"}
 Classes == NodeClasses \cup AssocClasses
-Subtree(c) == CASE c = "N" -> {"N", "NS"} [] c = "NS" -> {"NS"}
-                [] c = "M" -> {"M"}
-                [] c = "AB" -> {"AB", "ABS"} [] c = "ABS" -> {"ABS"}
+(* direct superclass ("" = none) *)
+Parent(c) == CASE c = "NS" -> "N" [] c = "NSS" -> "NS"
+               [] c = "ABS" -> "AB" [] c = "ABSS" -> "ABS"
+               [] OTHER -> ""
+RECURSIVE Descends(_, _)
+Descends(c, f) == c = f \/ (Parent(c) # "" /\ Descends(Parent(c), f))
+(* "class filters include subclasses": the class and ALL its direct and    *)
+(* indirect subclasses (tabulated for speed; the ASSUME ties the table to  *)
+(* the transitive closure of Parent)                                       *)
+Subtree(c) == CASE c = "N" -> {"N", "NS", "NSS"} [] c = "NS" -> {"NS", "NSS"}
+                [] c = "NSS" -> {"NSS"} [] c = "M" -> {"M"}
+                [] c = "AB" -> {"AB", "ABS", "ABSS"}
+                [] c = "ABS" -> {"ABS", "ABSS"} [] c = "ABSS" -> {"ABSS"}
                 [] c = "AT" -> {"AT"} [] c = "AL" -> {"AL"}
                 [] OTHER -> {}
-Roles(c) == CASE c \in {"AB", "ABS", "AL"} -> <<"r1", "r2">>
+ASSUME \A f \in Classes : Subtree(f) = {c \in Classes : Descends(c, f)}
+Roles(c) == CASE c \in {"AB", "ABS", "ABSS", "AL"} -> <<"r1", "r2">>
               [] c = "AT" -> <<"a", "b", "c">>
               [] OTHER -> <<>>
-RefClass(c) == CASE c \in {"AB", "ABS", "AL"} -> <<"N", "M">>
+RefClass(c) == CASE c \in {"AB", "ABS", "ABSS", "AL"} -> <<"N", "M">>
                  [] c = "AT" -> <<"N", "N", "M">>
                  [] OTHER -> <<>>
 RoleNames == {"r1", "r2", "a", "b", "c"}
@@ -70,6 +93,10 @@ Namespaces == {1, 2}
 GraphOk(G) ==
   /\ \A i \in DOMAIN G.nodes :
         G.nodes[i].cls \in NodeClasses /\ G.nodes[i].ns \in Namespaces
+  (* a store is a keyed map: namespace + creation class + key values       *)
+  /\ \A i, j \in DOMAIN G.nodes :
+        i # j => <<G.nodes[i].ns, G.nodes[i].cls, G.nodes[i].kid>>
+                 # <<G.nodes[j].ns, G.nodes[j].cls, G.nodes[j].kid>>
   /\ \A j \in DOMAIN G.assocs :
         LET a == G.assocs[j] IN
         /\ a.cls \in AssocClasses /\ a.ns \in Namespaces
@@ -244,7 +271,8 @@ RqFails(s, e) ==
           /\ Ok(R(i, t)) /\ Stored(R(i, t))
           /\ \/ Len(R(i, t).vs) # Len(R(i, t).ids)
              \/ \E j \in DOMAIN R(i, t).ids :
-                   R(i, t).vs[j] # G.assocs[R(i, t).ids[j]].ends})
+                   LET a == G.assocs[R(i, t).ids[j]] IN
+                   R(i, t).vs[j] # Append(a.ends, a.w)})
   \cup Bad("Refs.FilterNeverAddsResults",
       {i \in I : \E j \in Gens(i), t \in Slots :
           Ok(R(i, t)) /\ Ok(R(j, t)) /\ ~(Ids(R(i, t)) \subseteq Ids(R(j, t)))})
